@@ -194,7 +194,11 @@ type lockedIPTables struct {
 	in utiliptables.Interface
 }
 
-func (l *lockedIPTables) GetVersion() (string, error) { l.mu.Lock(); defer l.mu.Unlock(); return l.in.GetVersion() }
+func (l *lockedIPTables) GetVersion() (string, error) {
+	l.mu.Lock()
+	defer l.mu.Unlock()
+	return l.in.GetVersion()
+}
 func (l *lockedIPTables) EnsureChain(t utiliptables.Table, c utiliptables.Chain) (bool, error) {
 	l.mu.Lock()
 	defer l.mu.Unlock()
@@ -252,14 +256,27 @@ type lockedIPSet struct {
 	in ipset.Interface
 }
 
-func (l *lockedIPSet) FlushSet(s string) error   { l.mu.Lock(); defer l.mu.Unlock(); return l.in.FlushSet(s) }
-func (l *lockedIPSet) DestroySet(s string) error { l.mu.Lock(); defer l.mu.Unlock(); return l.in.DestroySet(s) }
-func (l *lockedIPSet) DestroyAllSets() error     { l.mu.Lock(); defer l.mu.Unlock(); return l.in.DestroyAllSets() }
+func (l *lockedIPSet) FlushSet(s string) error {
+	l.mu.Lock()
+	defer l.mu.Unlock()
+	return l.in.FlushSet(s)
+}
+func (l *lockedIPSet) DestroySet(s string) error {
+	l.mu.Lock()
+	defer l.mu.Unlock()
+	return l.in.DestroySet(s)
+}
+func (l *lockedIPSet) DestroyAllSets() error {
+	l.mu.Lock()
+	defer l.mu.Unlock()
+	return l.in.DestroyAllSets()
+}
 func (l *lockedIPSet) CreateSet(s *ipset.IPSet, i bool) error {
 	l.mu.Lock()
 	defer l.mu.Unlock()
 	return l.in.CreateSet(s, i)
 }
+
 // the repo's fake panics (nil map) where the real ipset answers "set does not exist"
 func (l *lockedIPSet) has(name string) bool {
 	sets, _ := l.in.ListSets()
@@ -293,8 +310,16 @@ func (l *lockedIPSet) ListEntries(s string) ([]string, error) {
 	defer l.mu.Unlock()
 	return l.in.ListEntries(s)
 }
-func (l *lockedIPSet) ListSets() ([]string, error) { l.mu.Lock(); defer l.mu.Unlock(); return l.in.ListSets() }
-func (l *lockedIPSet) GetVersion() (string, error) { l.mu.Lock(); defer l.mu.Unlock(); return l.in.GetVersion() }
+func (l *lockedIPSet) ListSets() ([]string, error) {
+	l.mu.Lock()
+	defer l.mu.Unlock()
+	return l.in.ListSets()
+}
+func (l *lockedIPSet) GetVersion() (string, error) {
+	l.mu.Lock()
+	defer l.mu.Unlock()
+	return l.in.GetVersion()
+}
 func (l *lockedIPSet) AddEntryWithOptions(e *ipset.Entry, s *ipset.IPSet, i bool) error {
 	l.mu.Lock()
 	defer l.mu.Unlock()
@@ -308,7 +333,11 @@ func (l *lockedIPSet) DelEntryWithOptions(s, e string, o ...string) error {
 	defer l.mu.Unlock()
 	return l.in.DelEntryWithOptions(s, e, o...)
 }
-func (l *lockedIPSet) SaveAllSets() ([]byte, error) { l.mu.Lock(); defer l.mu.Unlock(); return l.in.SaveAllSets() }
+func (l *lockedIPSet) SaveAllSets() ([]byte, error) {
+	l.mu.Lock()
+	defer l.mu.Unlock()
+	return l.in.SaveAllSets()
+}
 
 // LockedIPTables / LockedIPSet wrap a (not thread-safe) fake in a mutex.
 func LockedIPTables(in utiliptables.Interface) utiliptables.Interface { return &lockedIPTables{in: in} }
